@@ -52,7 +52,7 @@ func mustError(o h.Outcome) string {
 
 func c17(c *Ctx) {
 	maxLen := c.N(6, 12)
-	c.Rule = fmt.Sprintf("exhaustive: arrays of length 0..%d x element kinds {numbers, ints, strings, bools, objects, arrays} x carriers {[]any, typed slice, Go array} x {Count, Any, First, Last, AsArray, Index(i) for i in -2..len+2, 0.0, 1.5, 1e30, Count-1 via path}; Select with key / function / filter sub-queries; AnyOf with literal, path and array arguments; Sum over a stepped key vs Select vs direct values. Oracles computed in the harness. Non-trivial = array non-empty; distinct by (query, data).", maxLen)
+	c.Rule = fmt.Sprintf("exhaustive: arrays of length 0..%d x element kinds {numbers, ints, strings, bools, objects, arrays} x carriers {[]any, typed slice, Go array} x {Count, Any, First, Last, AsArray, Index(i) for i in -2..len+2, 0.0, 1.5, Count-1 via path, and positions far out of range (1e30, 1e64, 2^64, 2^64+1, 2^65 … as literals, numeral strings and decimals in the data)}; Select with key / function / filter sub-queries; AnyOf with literal, path and array arguments; Sum over a stepped key vs Select vs direct values (rows spelling their keys in varying letter case). Oracles computed in the harness. Non-trivial = array non-empty; distinct by (query, data).", maxLen)
 	kinds := elemKinds()
 	for kind, mk := range kinds {
 		for n := 0; n <= maxLen; n++ {
@@ -65,7 +65,9 @@ func c17(c *Ctx) {
 				carriers = append(carriers, h.TypedSlice(xs...), &D{Tag: "ar", Ety: h.TypedSlice(xs...).Ety, Xs: xs})
 			}
 			for ci, arr := range carriers {
-				doc := h.Obj("a", arr, "last", h.FloatD(float64(n-1)))
+				two64 := new(big.Int).Lsh(big.NewInt(1), 64)
+				doc := h.Obj("a", arr, "last", h.FloatD(float64(n-1)), "big0", &D{Tag: "d", Coef: two64, Exp: 0}, "big1", &D{Tag: "d", Coef: new(big.Int).Add(two64, big.NewInt(1)), Exp: 0},
+					"big64", &D{Tag: "d", Coef: big.NewInt(1), Exp: 64})
 				tag := fmt.Sprintf("%s:carrier%d", kind, ci)
 				ec := c.AddEval("$.a.Count()", doc, tag, true, n > 0)
 				ec.Check = exactly(big.NewRat(int64(n), 1))
@@ -98,8 +100,13 @@ func c17(c *Ctx) {
 						}
 					}
 				}
-				ec = c.AddEval("$.a.Index(1e30)", doc, tag, true, n > 0)
-				ec.Check = mustError
+				// positions far beyond every length — also those whose low 64 bits are a valid position
+				// (m*2^64+k, multiples of 10^64) — as literals, numeral strings and decimals from the data
+				for _, hp := range []string{"1e30", "1e64", "1e100", "1.7976931348623157e308", "18446744073709551616", "18446744073709551617", "36893488147419103232", "4294967296", "9223372036854775808",
+					"\"18446744073709551616\"", "\"18446744073709551617\"", "\"1e64\"", "$.big0", "$.big1", "$.big64"} {
+					ec = c.AddEval("$.a.Index("+hp+")", doc, tag, true, n > 0)
+					ec.Check = mustError
+				}
 				ec = c.AddEval("$.a.Index(-0.5)", doc, tag, true, n > 0)
 				ec.Check = func(o h.Outcome) string { // fractional: unspecified which, but never a panic or an out-of-range element
 					if o.Class == "panic" || o.Class == "fatal" {
@@ -131,7 +138,8 @@ func c17(c *Ctx) {
 				tags = append(tags, h.FloatD(float64(t)))
 				tg = append(tg, t)
 			}
-			objs = append(objs, h.Obj("k", h.FloatD(float64(kv)), "name", h.Str(fmt.Sprintf("n%d", i)), "tags", h.SliceAny(tags...)))
+			// the rows spell their keys in varying letter case (keys are matched without regard to case)
+			objs = append(objs, h.Obj(recase("k", r.Intn), h.FloatD(float64(kv)), recase("name", r.Intn), h.Str(fmt.Sprintf("n%d", i)), recase("tags", r.Intn), h.SliceAny(tags...)))
 			ks = append(ks, big.NewRat(kv, 1))
 			names = append(names, fmt.Sprintf("n%d", i))
 			nested = append(nested, tg)
